@@ -85,8 +85,16 @@ func mutableFields(a *Analyzer) []mutSite {
 				if typ == "" || !strings.HasPrefix(typ, "") {
 					continue
 				}
-				if _, isAlloc := base.(*ssa.Alloc); isAlloc {
-					continue // a fresh object being filled
+				root := base
+				for {
+					if inner, ok := root.(*ssa.FieldAddr); ok { // a value field of an enclosing struct
+						root = inner.X
+						continue
+					}
+					break
+				}
+				if _, isAlloc := root.(*ssa.Alloc); isAlloc {
+					continue // a fresh object (or a value field of one) being filled
 				}
 				if allocates(f, typ) {
 					continue
